@@ -28,12 +28,6 @@ let compOpp = function
 | Lt -> Gt
 | Gt -> Lt
 
-(** val pred : nat -> nat **)
-
-let pred n0 = match n0 with
-| O -> n0
-| S u -> u
-
 module Coq__1 = struct
  (** val add : nat -> nat -> nat **)
  let rec add n0 m =
@@ -516,10 +510,10 @@ type cpc =
 
 type tmst =
 | TmNone
-| TmArmed of z
-| TmCanc of z
-| TmFired of z
-| TmHold of z
+| TmArmed
+| TmCanc
+| TmFired
+| TmHold
 | TmDone
 
 type hold =
@@ -541,10 +535,11 @@ type st = { pstate : bool; slot : bool; wk : bool; tmo : z; hnd : nat option;
             para : perr option; running : bool; rq : nat; up : upc;
             ud : z option; kp : kpc; kdur : z option; kdl : z option;
             un : (nat -> npc); cn : (nat -> cpc); tm : (nat -> tmst);
-            ntm : nat; now : z; nested : bool; dropping : bool; oldk : 
-            nat; holder : hold; tcall : z; tok0 : bool; ctok : bool;
-            wsrc : wake; nclr : nat; lastv : verdict option; tainted : 
-            bool; susp : bool }
+            tdl : (nat -> z); ntm : nat; now : z; nested : bool;
+            dropping : bool; oldk : nat; holder : hold; tcall : z;
+            tok0 : bool; ctok : bool; wsrc : wake; nclr : nat;
+            lastv : verdict option; tainted : bool; susp : bool; ncall : 
+            nat }
 
 (** val set_pstate : bool -> st -> st **)
 
@@ -552,10 +547,11 @@ let set_pstate v s =
   { pstate = v; slot = s.slot; wk = s.wk; tmo = s.tmo; hnd = s.hnd; ccheck =
     s.ccheck; cbit = s.cbit; cdis = s.cdis; cco = s.cco; para = s.para;
     running = s.running; rq = s.rq; up = s.up; ud = s.ud; kp = s.kp; kdur =
-    s.kdur; kdl = s.kdl; un = s.un; cn = s.cn; tm = s.tm; ntm = s.ntm; now =
-    s.now; nested = s.nested; dropping = s.dropping; oldk = s.oldk; holder =
-    s.holder; tcall = s.tcall; tok0 = s.tok0; ctok = s.ctok; wsrc = s.wsrc;
-    nclr = s.nclr; lastv = s.lastv; tainted = s.tainted; susp = s.susp }
+    s.kdur; kdl = s.kdl; un = s.un; cn = s.cn; tm = s.tm; tdl = s.tdl; ntm =
+    s.ntm; now = s.now; nested = s.nested; dropping = s.dropping; oldk =
+    s.oldk; holder = s.holder; tcall = s.tcall; tok0 = s.tok0; ctok = s.ctok;
+    wsrc = s.wsrc; nclr = s.nclr; lastv = s.lastv; tainted = s.tainted;
+    susp = s.susp; ncall = s.ncall }
 
 (** val set_slot : bool -> st -> st **)
 
@@ -563,11 +559,11 @@ let set_slot v s =
   { pstate = s.pstate; slot = v; wk = s.wk; tmo = s.tmo; hnd = s.hnd;
     ccheck = s.ccheck; cbit = s.cbit; cdis = s.cdis; cco = s.cco; para =
     s.para; running = s.running; rq = s.rq; up = s.up; ud = s.ud; kp = s.kp;
-    kdur = s.kdur; kdl = s.kdl; un = s.un; cn = s.cn; tm = s.tm; ntm = s.ntm;
-    now = s.now; nested = s.nested; dropping = s.dropping; oldk = s.oldk;
-    holder = s.holder; tcall = s.tcall; tok0 = s.tok0; ctok = s.ctok; wsrc =
-    s.wsrc; nclr = s.nclr; lastv = s.lastv; tainted = s.tainted; susp =
-    s.susp }
+    kdur = s.kdur; kdl = s.kdl; un = s.un; cn = s.cn; tm = s.tm; tdl = s.tdl;
+    ntm = s.ntm; now = s.now; nested = s.nested; dropping = s.dropping;
+    oldk = s.oldk; holder = s.holder; tcall = s.tcall; tok0 = s.tok0; ctok =
+    s.ctok; wsrc = s.wsrc; nclr = s.nclr; lastv = s.lastv; tainted =
+    s.tainted; susp = s.susp; ncall = s.ncall }
 
 (** val set_wk : bool -> st -> st **)
 
@@ -575,11 +571,11 @@ let set_wk v s =
   { pstate = s.pstate; slot = s.slot; wk = v; tmo = s.tmo; hnd = s.hnd;
     ccheck = s.ccheck; cbit = s.cbit; cdis = s.cdis; cco = s.cco; para =
     s.para; running = s.running; rq = s.rq; up = s.up; ud = s.ud; kp = s.kp;
-    kdur = s.kdur; kdl = s.kdl; un = s.un; cn = s.cn; tm = s.tm; ntm = s.ntm;
-    now = s.now; nested = s.nested; dropping = s.dropping; oldk = s.oldk;
-    holder = s.holder; tcall = s.tcall; tok0 = s.tok0; ctok = s.ctok; wsrc =
-    s.wsrc; nclr = s.nclr; lastv = s.lastv; tainted = s.tainted; susp =
-    s.susp }
+    kdur = s.kdur; kdl = s.kdl; un = s.un; cn = s.cn; tm = s.tm; tdl = s.tdl;
+    ntm = s.ntm; now = s.now; nested = s.nested; dropping = s.dropping;
+    oldk = s.oldk; holder = s.holder; tcall = s.tcall; tok0 = s.tok0; ctok =
+    s.ctok; wsrc = s.wsrc; nclr = s.nclr; lastv = s.lastv; tainted =
+    s.tainted; susp = s.susp; ncall = s.ncall }
 
 (** val set_tmo : z -> st -> st **)
 
@@ -587,11 +583,11 @@ let set_tmo v s =
   { pstate = s.pstate; slot = s.slot; wk = s.wk; tmo = v; hnd = s.hnd;
     ccheck = s.ccheck; cbit = s.cbit; cdis = s.cdis; cco = s.cco; para =
     s.para; running = s.running; rq = s.rq; up = s.up; ud = s.ud; kp = s.kp;
-    kdur = s.kdur; kdl = s.kdl; un = s.un; cn = s.cn; tm = s.tm; ntm = s.ntm;
-    now = s.now; nested = s.nested; dropping = s.dropping; oldk = s.oldk;
-    holder = s.holder; tcall = s.tcall; tok0 = s.tok0; ctok = s.ctok; wsrc =
-    s.wsrc; nclr = s.nclr; lastv = s.lastv; tainted = s.tainted; susp =
-    s.susp }
+    kdur = s.kdur; kdl = s.kdl; un = s.un; cn = s.cn; tm = s.tm; tdl = s.tdl;
+    ntm = s.ntm; now = s.now; nested = s.nested; dropping = s.dropping;
+    oldk = s.oldk; holder = s.holder; tcall = s.tcall; tok0 = s.tok0; ctok =
+    s.ctok; wsrc = s.wsrc; nclr = s.nclr; lastv = s.lastv; tainted =
+    s.tainted; susp = s.susp; ncall = s.ncall }
 
 (** val set_hnd : nat option -> st -> st **)
 
@@ -599,11 +595,11 @@ let set_hnd v s =
   { pstate = s.pstate; slot = s.slot; wk = s.wk; tmo = s.tmo; hnd = v;
     ccheck = s.ccheck; cbit = s.cbit; cdis = s.cdis; cco = s.cco; para =
     s.para; running = s.running; rq = s.rq; up = s.up; ud = s.ud; kp = s.kp;
-    kdur = s.kdur; kdl = s.kdl; un = s.un; cn = s.cn; tm = s.tm; ntm = s.ntm;
-    now = s.now; nested = s.nested; dropping = s.dropping; oldk = s.oldk;
-    holder = s.holder; tcall = s.tcall; tok0 = s.tok0; ctok = s.ctok; wsrc =
-    s.wsrc; nclr = s.nclr; lastv = s.lastv; tainted = s.tainted; susp =
-    s.susp }
+    kdur = s.kdur; kdl = s.kdl; un = s.un; cn = s.cn; tm = s.tm; tdl = s.tdl;
+    ntm = s.ntm; now = s.now; nested = s.nested; dropping = s.dropping;
+    oldk = s.oldk; holder = s.holder; tcall = s.tcall; tok0 = s.tok0; ctok =
+    s.ctok; wsrc = s.wsrc; nclr = s.nclr; lastv = s.lastv; tainted =
+    s.tainted; susp = s.susp; ncall = s.ncall }
 
 (** val set_ccheck : bool -> st -> st **)
 
@@ -611,10 +607,11 @@ let set_ccheck v s =
   { pstate = s.pstate; slot = s.slot; wk = s.wk; tmo = s.tmo; hnd = s.hnd;
     ccheck = v; cbit = s.cbit; cdis = s.cdis; cco = s.cco; para = s.para;
     running = s.running; rq = s.rq; up = s.up; ud = s.ud; kp = s.kp; kdur =
-    s.kdur; kdl = s.kdl; un = s.un; cn = s.cn; tm = s.tm; ntm = s.ntm; now =
-    s.now; nested = s.nested; dropping = s.dropping; oldk = s.oldk; holder =
-    s.holder; tcall = s.tcall; tok0 = s.tok0; ctok = s.ctok; wsrc = s.wsrc;
-    nclr = s.nclr; lastv = s.lastv; tainted = s.tainted; susp = s.susp }
+    s.kdur; kdl = s.kdl; un = s.un; cn = s.cn; tm = s.tm; tdl = s.tdl; ntm =
+    s.ntm; now = s.now; nested = s.nested; dropping = s.dropping; oldk =
+    s.oldk; holder = s.holder; tcall = s.tcall; tok0 = s.tok0; ctok = s.ctok;
+    wsrc = s.wsrc; nclr = s.nclr; lastv = s.lastv; tainted = s.tainted;
+    susp = s.susp; ncall = s.ncall }
 
 (** val set_cbit : bool -> st -> st **)
 
@@ -622,10 +619,11 @@ let set_cbit v s =
   { pstate = s.pstate; slot = s.slot; wk = s.wk; tmo = s.tmo; hnd = s.hnd;
     ccheck = s.ccheck; cbit = v; cdis = s.cdis; cco = s.cco; para = s.para;
     running = s.running; rq = s.rq; up = s.up; ud = s.ud; kp = s.kp; kdur =
-    s.kdur; kdl = s.kdl; un = s.un; cn = s.cn; tm = s.tm; ntm = s.ntm; now =
-    s.now; nested = s.nested; dropping = s.dropping; oldk = s.oldk; holder =
-    s.holder; tcall = s.tcall; tok0 = s.tok0; ctok = s.ctok; wsrc = s.wsrc;
-    nclr = s.nclr; lastv = s.lastv; tainted = s.tainted; susp = s.susp }
+    s.kdur; kdl = s.kdl; un = s.un; cn = s.cn; tm = s.tm; tdl = s.tdl; ntm =
+    s.ntm; now = s.now; nested = s.nested; dropping = s.dropping; oldk =
+    s.oldk; holder = s.holder; tcall = s.tcall; tok0 = s.tok0; ctok = s.ctok;
+    wsrc = s.wsrc; nclr = s.nclr; lastv = s.lastv; tainted = s.tainted;
+    susp = s.susp; ncall = s.ncall }
 
 (** val set_cdis : bool -> st -> st **)
 
@@ -633,10 +631,11 @@ let set_cdis v s =
   { pstate = s.pstate; slot = s.slot; wk = s.wk; tmo = s.tmo; hnd = s.hnd;
     ccheck = s.ccheck; cbit = s.cbit; cdis = v; cco = s.cco; para = s.para;
     running = s.running; rq = s.rq; up = s.up; ud = s.ud; kp = s.kp; kdur =
-    s.kdur; kdl = s.kdl; un = s.un; cn = s.cn; tm = s.tm; ntm = s.ntm; now =
-    s.now; nested = s.nested; dropping = s.dropping; oldk = s.oldk; holder =
-    s.holder; tcall = s.tcall; tok0 = s.tok0; ctok = s.ctok; wsrc = s.wsrc;
-    nclr = s.nclr; lastv = s.lastv; tainted = s.tainted; susp = s.susp }
+    s.kdur; kdl = s.kdl; un = s.un; cn = s.cn; tm = s.tm; tdl = s.tdl; ntm =
+    s.ntm; now = s.now; nested = s.nested; dropping = s.dropping; oldk =
+    s.oldk; holder = s.holder; tcall = s.tcall; tok0 = s.tok0; ctok = s.ctok;
+    wsrc = s.wsrc; nclr = s.nclr; lastv = s.lastv; tainted = s.tainted;
+    susp = s.susp; ncall = s.ncall }
 
 (** val set_cco : cslot -> st -> st **)
 
@@ -644,10 +643,11 @@ let set_cco v s =
   { pstate = s.pstate; slot = s.slot; wk = s.wk; tmo = s.tmo; hnd = s.hnd;
     ccheck = s.ccheck; cbit = s.cbit; cdis = s.cdis; cco = v; para = s.para;
     running = s.running; rq = s.rq; up = s.up; ud = s.ud; kp = s.kp; kdur =
-    s.kdur; kdl = s.kdl; un = s.un; cn = s.cn; tm = s.tm; ntm = s.ntm; now =
-    s.now; nested = s.nested; dropping = s.dropping; oldk = s.oldk; holder =
-    s.holder; tcall = s.tcall; tok0 = s.tok0; ctok = s.ctok; wsrc = s.wsrc;
-    nclr = s.nclr; lastv = s.lastv; tainted = s.tainted; susp = s.susp }
+    s.kdur; kdl = s.kdl; un = s.un; cn = s.cn; tm = s.tm; tdl = s.tdl; ntm =
+    s.ntm; now = s.now; nested = s.nested; dropping = s.dropping; oldk =
+    s.oldk; holder = s.holder; tcall = s.tcall; tok0 = s.tok0; ctok = s.ctok;
+    wsrc = s.wsrc; nclr = s.nclr; lastv = s.lastv; tainted = s.tainted;
+    susp = s.susp; ncall = s.ncall }
 
 (** val set_para : perr option -> st -> st **)
 
@@ -655,10 +655,11 @@ let set_para v s =
   { pstate = s.pstate; slot = s.slot; wk = s.wk; tmo = s.tmo; hnd = s.hnd;
     ccheck = s.ccheck; cbit = s.cbit; cdis = s.cdis; cco = s.cco; para = v;
     running = s.running; rq = s.rq; up = s.up; ud = s.ud; kp = s.kp; kdur =
-    s.kdur; kdl = s.kdl; un = s.un; cn = s.cn; tm = s.tm; ntm = s.ntm; now =
-    s.now; nested = s.nested; dropping = s.dropping; oldk = s.oldk; holder =
-    s.holder; tcall = s.tcall; tok0 = s.tok0; ctok = s.ctok; wsrc = s.wsrc;
-    nclr = s.nclr; lastv = s.lastv; tainted = s.tainted; susp = s.susp }
+    s.kdur; kdl = s.kdl; un = s.un; cn = s.cn; tm = s.tm; tdl = s.tdl; ntm =
+    s.ntm; now = s.now; nested = s.nested; dropping = s.dropping; oldk =
+    s.oldk; holder = s.holder; tcall = s.tcall; tok0 = s.tok0; ctok = s.ctok;
+    wsrc = s.wsrc; nclr = s.nclr; lastv = s.lastv; tainted = s.tainted;
+    susp = s.susp; ncall = s.ncall }
 
 (** val set_running : bool -> st -> st **)
 
@@ -666,10 +667,11 @@ let set_running v s =
   { pstate = s.pstate; slot = s.slot; wk = s.wk; tmo = s.tmo; hnd = s.hnd;
     ccheck = s.ccheck; cbit = s.cbit; cdis = s.cdis; cco = s.cco; para =
     s.para; running = v; rq = s.rq; up = s.up; ud = s.ud; kp = s.kp; kdur =
-    s.kdur; kdl = s.kdl; un = s.un; cn = s.cn; tm = s.tm; ntm = s.ntm; now =
-    s.now; nested = s.nested; dropping = s.dropping; oldk = s.oldk; holder =
-    s.holder; tcall = s.tcall; tok0 = s.tok0; ctok = s.ctok; wsrc = s.wsrc;
-    nclr = s.nclr; lastv = s.lastv; tainted = s.tainted; susp = s.susp }
+    s.kdur; kdl = s.kdl; un = s.un; cn = s.cn; tm = s.tm; tdl = s.tdl; ntm =
+    s.ntm; now = s.now; nested = s.nested; dropping = s.dropping; oldk =
+    s.oldk; holder = s.holder; tcall = s.tcall; tok0 = s.tok0; ctok = s.ctok;
+    wsrc = s.wsrc; nclr = s.nclr; lastv = s.lastv; tainted = s.tainted;
+    susp = s.susp; ncall = s.ncall }
 
 (** val set_rq : nat -> st -> st **)
 
@@ -677,11 +679,11 @@ let set_rq v s =
   { pstate = s.pstate; slot = s.slot; wk = s.wk; tmo = s.tmo; hnd = s.hnd;
     ccheck = s.ccheck; cbit = s.cbit; cdis = s.cdis; cco = s.cco; para =
     s.para; running = s.running; rq = v; up = s.up; ud = s.ud; kp = s.kp;
-    kdur = s.kdur; kdl = s.kdl; un = s.un; cn = s.cn; tm = s.tm; ntm = s.ntm;
-    now = s.now; nested = s.nested; dropping = s.dropping; oldk = s.oldk;
-    holder = s.holder; tcall = s.tcall; tok0 = s.tok0; ctok = s.ctok; wsrc =
-    s.wsrc; nclr = s.nclr; lastv = s.lastv; tainted = s.tainted; susp =
-    s.susp }
+    kdur = s.kdur; kdl = s.kdl; un = s.un; cn = s.cn; tm = s.tm; tdl = s.tdl;
+    ntm = s.ntm; now = s.now; nested = s.nested; dropping = s.dropping;
+    oldk = s.oldk; holder = s.holder; tcall = s.tcall; tok0 = s.tok0; ctok =
+    s.ctok; wsrc = s.wsrc; nclr = s.nclr; lastv = s.lastv; tainted =
+    s.tainted; susp = s.susp; ncall = s.ncall }
 
 (** val set_up : upc -> st -> st **)
 
@@ -689,11 +691,11 @@ let set_up v s =
   { pstate = s.pstate; slot = s.slot; wk = s.wk; tmo = s.tmo; hnd = s.hnd;
     ccheck = s.ccheck; cbit = s.cbit; cdis = s.cdis; cco = s.cco; para =
     s.para; running = s.running; rq = s.rq; up = v; ud = s.ud; kp = s.kp;
-    kdur = s.kdur; kdl = s.kdl; un = s.un; cn = s.cn; tm = s.tm; ntm = s.ntm;
-    now = s.now; nested = s.nested; dropping = s.dropping; oldk = s.oldk;
-    holder = s.holder; tcall = s.tcall; tok0 = s.tok0; ctok = s.ctok; wsrc =
-    s.wsrc; nclr = s.nclr; lastv = s.lastv; tainted = s.tainted; susp =
-    s.susp }
+    kdur = s.kdur; kdl = s.kdl; un = s.un; cn = s.cn; tm = s.tm; tdl = s.tdl;
+    ntm = s.ntm; now = s.now; nested = s.nested; dropping = s.dropping;
+    oldk = s.oldk; holder = s.holder; tcall = s.tcall; tok0 = s.tok0; ctok =
+    s.ctok; wsrc = s.wsrc; nclr = s.nclr; lastv = s.lastv; tainted =
+    s.tainted; susp = s.susp; ncall = s.ncall }
 
 (** val set_ud : z option -> st -> st **)
 
@@ -701,11 +703,11 @@ let set_ud v s =
   { pstate = s.pstate; slot = s.slot; wk = s.wk; tmo = s.tmo; hnd = s.hnd;
     ccheck = s.ccheck; cbit = s.cbit; cdis = s.cdis; cco = s.cco; para =
     s.para; running = s.running; rq = s.rq; up = s.up; ud = v; kp = s.kp;
-    kdur = s.kdur; kdl = s.kdl; un = s.un; cn = s.cn; tm = s.tm; ntm = s.ntm;
-    now = s.now; nested = s.nested; dropping = s.dropping; oldk = s.oldk;
-    holder = s.holder; tcall = s.tcall; tok0 = s.tok0; ctok = s.ctok; wsrc =
-    s.wsrc; nclr = s.nclr; lastv = s.lastv; tainted = s.tainted; susp =
-    s.susp }
+    kdur = s.kdur; kdl = s.kdl; un = s.un; cn = s.cn; tm = s.tm; tdl = s.tdl;
+    ntm = s.ntm; now = s.now; nested = s.nested; dropping = s.dropping;
+    oldk = s.oldk; holder = s.holder; tcall = s.tcall; tok0 = s.tok0; ctok =
+    s.ctok; wsrc = s.wsrc; nclr = s.nclr; lastv = s.lastv; tainted =
+    s.tainted; susp = s.susp; ncall = s.ncall }
 
 (** val set_kp : kpc -> st -> st **)
 
@@ -713,11 +715,11 @@ let set_kp v s =
   { pstate = s.pstate; slot = s.slot; wk = s.wk; tmo = s.tmo; hnd = s.hnd;
     ccheck = s.ccheck; cbit = s.cbit; cdis = s.cdis; cco = s.cco; para =
     s.para; running = s.running; rq = s.rq; up = s.up; ud = s.ud; kp = v;
-    kdur = s.kdur; kdl = s.kdl; un = s.un; cn = s.cn; tm = s.tm; ntm = s.ntm;
-    now = s.now; nested = s.nested; dropping = s.dropping; oldk = s.oldk;
-    holder = s.holder; tcall = s.tcall; tok0 = s.tok0; ctok = s.ctok; wsrc =
-    s.wsrc; nclr = s.nclr; lastv = s.lastv; tainted = s.tainted; susp =
-    s.susp }
+    kdur = s.kdur; kdl = s.kdl; un = s.un; cn = s.cn; tm = s.tm; tdl = s.tdl;
+    ntm = s.ntm; now = s.now; nested = s.nested; dropping = s.dropping;
+    oldk = s.oldk; holder = s.holder; tcall = s.tcall; tok0 = s.tok0; ctok =
+    s.ctok; wsrc = s.wsrc; nclr = s.nclr; lastv = s.lastv; tainted =
+    s.tainted; susp = s.susp; ncall = s.ncall }
 
 (** val set_kdur : z option -> st -> st **)
 
@@ -725,11 +727,11 @@ let set_kdur v s =
   { pstate = s.pstate; slot = s.slot; wk = s.wk; tmo = s.tmo; hnd = s.hnd;
     ccheck = s.ccheck; cbit = s.cbit; cdis = s.cdis; cco = s.cco; para =
     s.para; running = s.running; rq = s.rq; up = s.up; ud = s.ud; kp = s.kp;
-    kdur = v; kdl = s.kdl; un = s.un; cn = s.cn; tm = s.tm; ntm = s.ntm;
-    now = s.now; nested = s.nested; dropping = s.dropping; oldk = s.oldk;
-    holder = s.holder; tcall = s.tcall; tok0 = s.tok0; ctok = s.ctok; wsrc =
-    s.wsrc; nclr = s.nclr; lastv = s.lastv; tainted = s.tainted; susp =
-    s.susp }
+    kdur = v; kdl = s.kdl; un = s.un; cn = s.cn; tm = s.tm; tdl = s.tdl;
+    ntm = s.ntm; now = s.now; nested = s.nested; dropping = s.dropping;
+    oldk = s.oldk; holder = s.holder; tcall = s.tcall; tok0 = s.tok0; ctok =
+    s.ctok; wsrc = s.wsrc; nclr = s.nclr; lastv = s.lastv; tainted =
+    s.tainted; susp = s.susp; ncall = s.ncall }
 
 (** val set_kdl : z option -> st -> st **)
 
@@ -737,11 +739,11 @@ let set_kdl v s =
   { pstate = s.pstate; slot = s.slot; wk = s.wk; tmo = s.tmo; hnd = s.hnd;
     ccheck = s.ccheck; cbit = s.cbit; cdis = s.cdis; cco = s.cco; para =
     s.para; running = s.running; rq = s.rq; up = s.up; ud = s.ud; kp = s.kp;
-    kdur = s.kdur; kdl = v; un = s.un; cn = s.cn; tm = s.tm; ntm = s.ntm;
-    now = s.now; nested = s.nested; dropping = s.dropping; oldk = s.oldk;
-    holder = s.holder; tcall = s.tcall; tok0 = s.tok0; ctok = s.ctok; wsrc =
-    s.wsrc; nclr = s.nclr; lastv = s.lastv; tainted = s.tainted; susp =
-    s.susp }
+    kdur = s.kdur; kdl = v; un = s.un; cn = s.cn; tm = s.tm; tdl = s.tdl;
+    ntm = s.ntm; now = s.now; nested = s.nested; dropping = s.dropping;
+    oldk = s.oldk; holder = s.holder; tcall = s.tcall; tok0 = s.tok0; ctok =
+    s.ctok; wsrc = s.wsrc; nclr = s.nclr; lastv = s.lastv; tainted =
+    s.tainted; susp = s.susp; ncall = s.ncall }
 
 (** val set_un : (nat -> npc) -> st -> st **)
 
@@ -749,11 +751,11 @@ let set_un v s =
   { pstate = s.pstate; slot = s.slot; wk = s.wk; tmo = s.tmo; hnd = s.hnd;
     ccheck = s.ccheck; cbit = s.cbit; cdis = s.cdis; cco = s.cco; para =
     s.para; running = s.running; rq = s.rq; up = s.up; ud = s.ud; kp = s.kp;
-    kdur = s.kdur; kdl = s.kdl; un = v; cn = s.cn; tm = s.tm; ntm = s.ntm;
-    now = s.now; nested = s.nested; dropping = s.dropping; oldk = s.oldk;
-    holder = s.holder; tcall = s.tcall; tok0 = s.tok0; ctok = s.ctok; wsrc =
-    s.wsrc; nclr = s.nclr; lastv = s.lastv; tainted = s.tainted; susp =
-    s.susp }
+    kdur = s.kdur; kdl = s.kdl; un = v; cn = s.cn; tm = s.tm; tdl = s.tdl;
+    ntm = s.ntm; now = s.now; nested = s.nested; dropping = s.dropping;
+    oldk = s.oldk; holder = s.holder; tcall = s.tcall; tok0 = s.tok0; ctok =
+    s.ctok; wsrc = s.wsrc; nclr = s.nclr; lastv = s.lastv; tainted =
+    s.tainted; susp = s.susp; ncall = s.ncall }
 
 (** val set_cn : (nat -> cpc) -> st -> st **)
 
@@ -761,11 +763,11 @@ let set_cn v s =
   { pstate = s.pstate; slot = s.slot; wk = s.wk; tmo = s.tmo; hnd = s.hnd;
     ccheck = s.ccheck; cbit = s.cbit; cdis = s.cdis; cco = s.cco; para =
     s.para; running = s.running; rq = s.rq; up = s.up; ud = s.ud; kp = s.kp;
-    kdur = s.kdur; kdl = s.kdl; un = s.un; cn = v; tm = s.tm; ntm = s.ntm;
-    now = s.now; nested = s.nested; dropping = s.dropping; oldk = s.oldk;
-    holder = s.holder; tcall = s.tcall; tok0 = s.tok0; ctok = s.ctok; wsrc =
-    s.wsrc; nclr = s.nclr; lastv = s.lastv; tainted = s.tainted; susp =
-    s.susp }
+    kdur = s.kdur; kdl = s.kdl; un = s.un; cn = v; tm = s.tm; tdl = s.tdl;
+    ntm = s.ntm; now = s.now; nested = s.nested; dropping = s.dropping;
+    oldk = s.oldk; holder = s.holder; tcall = s.tcall; tok0 = s.tok0; ctok =
+    s.ctok; wsrc = s.wsrc; nclr = s.nclr; lastv = s.lastv; tainted =
+    s.tainted; susp = s.susp; ncall = s.ncall }
 
 (** val set_tm : (nat -> tmst) -> st -> st **)
 
@@ -773,11 +775,23 @@ let set_tm v s =
   { pstate = s.pstate; slot = s.slot; wk = s.wk; tmo = s.tmo; hnd = s.hnd;
     ccheck = s.ccheck; cbit = s.cbit; cdis = s.cdis; cco = s.cco; para =
     s.para; running = s.running; rq = s.rq; up = s.up; ud = s.ud; kp = s.kp;
-    kdur = s.kdur; kdl = s.kdl; un = s.un; cn = s.cn; tm = v; ntm = s.ntm;
-    now = s.now; nested = s.nested; dropping = s.dropping; oldk = s.oldk;
-    holder = s.holder; tcall = s.tcall; tok0 = s.tok0; ctok = s.ctok; wsrc =
-    s.wsrc; nclr = s.nclr; lastv = s.lastv; tainted = s.tainted; susp =
-    s.susp }
+    kdur = s.kdur; kdl = s.kdl; un = s.un; cn = s.cn; tm = v; tdl = s.tdl;
+    ntm = s.ntm; now = s.now; nested = s.nested; dropping = s.dropping;
+    oldk = s.oldk; holder = s.holder; tcall = s.tcall; tok0 = s.tok0; ctok =
+    s.ctok; wsrc = s.wsrc; nclr = s.nclr; lastv = s.lastv; tainted =
+    s.tainted; susp = s.susp; ncall = s.ncall }
+
+(** val set_tdl : (nat -> z) -> st -> st **)
+
+let set_tdl v s =
+  { pstate = s.pstate; slot = s.slot; wk = s.wk; tmo = s.tmo; hnd = s.hnd;
+    ccheck = s.ccheck; cbit = s.cbit; cdis = s.cdis; cco = s.cco; para =
+    s.para; running = s.running; rq = s.rq; up = s.up; ud = s.ud; kp = s.kp;
+    kdur = s.kdur; kdl = s.kdl; un = s.un; cn = s.cn; tm = s.tm; tdl = v;
+    ntm = s.ntm; now = s.now; nested = s.nested; dropping = s.dropping;
+    oldk = s.oldk; holder = s.holder; tcall = s.tcall; tok0 = s.tok0; ctok =
+    s.ctok; wsrc = s.wsrc; nclr = s.nclr; lastv = s.lastv; tainted =
+    s.tainted; susp = s.susp; ncall = s.ncall }
 
 (** val set_ntm : nat -> st -> st **)
 
@@ -785,11 +799,11 @@ let set_ntm v s =
   { pstate = s.pstate; slot = s.slot; wk = s.wk; tmo = s.tmo; hnd = s.hnd;
     ccheck = s.ccheck; cbit = s.cbit; cdis = s.cdis; cco = s.cco; para =
     s.para; running = s.running; rq = s.rq; up = s.up; ud = s.ud; kp = s.kp;
-    kdur = s.kdur; kdl = s.kdl; un = s.un; cn = s.cn; tm = s.tm; ntm = v;
-    now = s.now; nested = s.nested; dropping = s.dropping; oldk = s.oldk;
-    holder = s.holder; tcall = s.tcall; tok0 = s.tok0; ctok = s.ctok; wsrc =
-    s.wsrc; nclr = s.nclr; lastv = s.lastv; tainted = s.tainted; susp =
-    s.susp }
+    kdur = s.kdur; kdl = s.kdl; un = s.un; cn = s.cn; tm = s.tm; tdl = s.tdl;
+    ntm = v; now = s.now; nested = s.nested; dropping = s.dropping; oldk =
+    s.oldk; holder = s.holder; tcall = s.tcall; tok0 = s.tok0; ctok = s.ctok;
+    wsrc = s.wsrc; nclr = s.nclr; lastv = s.lastv; tainted = s.tainted;
+    susp = s.susp; ncall = s.ncall }
 
 (** val set_now : z -> st -> st **)
 
@@ -797,11 +811,11 @@ let set_now v s =
   { pstate = s.pstate; slot = s.slot; wk = s.wk; tmo = s.tmo; hnd = s.hnd;
     ccheck = s.ccheck; cbit = s.cbit; cdis = s.cdis; cco = s.cco; para =
     s.para; running = s.running; rq = s.rq; up = s.up; ud = s.ud; kp = s.kp;
-    kdur = s.kdur; kdl = s.kdl; un = s.un; cn = s.cn; tm = s.tm; ntm = s.ntm;
-    now = v; nested = s.nested; dropping = s.dropping; oldk = s.oldk;
-    holder = s.holder; tcall = s.tcall; tok0 = s.tok0; ctok = s.ctok; wsrc =
-    s.wsrc; nclr = s.nclr; lastv = s.lastv; tainted = s.tainted; susp =
-    s.susp }
+    kdur = s.kdur; kdl = s.kdl; un = s.un; cn = s.cn; tm = s.tm; tdl = s.tdl;
+    ntm = s.ntm; now = v; nested = s.nested; dropping = s.dropping; oldk =
+    s.oldk; holder = s.holder; tcall = s.tcall; tok0 = s.tok0; ctok = s.ctok;
+    wsrc = s.wsrc; nclr = s.nclr; lastv = s.lastv; tainted = s.tainted;
+    susp = s.susp; ncall = s.ncall }
 
 (** val set_nested : bool -> st -> st **)
 
@@ -809,10 +823,11 @@ let set_nested v s =
   { pstate = s.pstate; slot = s.slot; wk = s.wk; tmo = s.tmo; hnd = s.hnd;
     ccheck = s.ccheck; cbit = s.cbit; cdis = s.cdis; cco = s.cco; para =
     s.para; running = s.running; rq = s.rq; up = s.up; ud = s.ud; kp = s.kp;
-    kdur = s.kdur; kdl = s.kdl; un = s.un; cn = s.cn; tm = s.tm; ntm = s.ntm;
-    now = s.now; nested = v; dropping = s.dropping; oldk = s.oldk; holder =
-    s.holder; tcall = s.tcall; tok0 = s.tok0; ctok = s.ctok; wsrc = s.wsrc;
-    nclr = s.nclr; lastv = s.lastv; tainted = s.tainted; susp = s.susp }
+    kdur = s.kdur; kdl = s.kdl; un = s.un; cn = s.cn; tm = s.tm; tdl = s.tdl;
+    ntm = s.ntm; now = s.now; nested = v; dropping = s.dropping; oldk =
+    s.oldk; holder = s.holder; tcall = s.tcall; tok0 = s.tok0; ctok = s.ctok;
+    wsrc = s.wsrc; nclr = s.nclr; lastv = s.lastv; tainted = s.tainted;
+    susp = s.susp; ncall = s.ncall }
 
 (** val set_dropping : bool -> st -> st **)
 
@@ -820,10 +835,11 @@ let set_dropping v s =
   { pstate = s.pstate; slot = s.slot; wk = s.wk; tmo = s.tmo; hnd = s.hnd;
     ccheck = s.ccheck; cbit = s.cbit; cdis = s.cdis; cco = s.cco; para =
     s.para; running = s.running; rq = s.rq; up = s.up; ud = s.ud; kp = s.kp;
-    kdur = s.kdur; kdl = s.kdl; un = s.un; cn = s.cn; tm = s.tm; ntm = s.ntm;
-    now = s.now; nested = s.nested; dropping = v; oldk = s.oldk; holder =
-    s.holder; tcall = s.tcall; tok0 = s.tok0; ctok = s.ctok; wsrc = s.wsrc;
-    nclr = s.nclr; lastv = s.lastv; tainted = s.tainted; susp = s.susp }
+    kdur = s.kdur; kdl = s.kdl; un = s.un; cn = s.cn; tm = s.tm; tdl = s.tdl;
+    ntm = s.ntm; now = s.now; nested = s.nested; dropping = v; oldk = s.oldk;
+    holder = s.holder; tcall = s.tcall; tok0 = s.tok0; ctok = s.ctok; wsrc =
+    s.wsrc; nclr = s.nclr; lastv = s.lastv; tainted = s.tainted; susp =
+    s.susp; ncall = s.ncall }
 
 (** val set_oldk : nat -> st -> st **)
 
@@ -831,10 +847,11 @@ let set_oldk v s =
   { pstate = s.pstate; slot = s.slot; wk = s.wk; tmo = s.tmo; hnd = s.hnd;
     ccheck = s.ccheck; cbit = s.cbit; cdis = s.cdis; cco = s.cco; para =
     s.para; running = s.running; rq = s.rq; up = s.up; ud = s.ud; kp = s.kp;
-    kdur = s.kdur; kdl = s.kdl; un = s.un; cn = s.cn; tm = s.tm; ntm = s.ntm;
-    now = s.now; nested = s.nested; dropping = s.dropping; oldk = v; holder =
-    s.holder; tcall = s.tcall; tok0 = s.tok0; ctok = s.ctok; wsrc = s.wsrc;
-    nclr = s.nclr; lastv = s.lastv; tainted = s.tainted; susp = s.susp }
+    kdur = s.kdur; kdl = s.kdl; un = s.un; cn = s.cn; tm = s.tm; tdl = s.tdl;
+    ntm = s.ntm; now = s.now; nested = s.nested; dropping = s.dropping;
+    oldk = v; holder = s.holder; tcall = s.tcall; tok0 = s.tok0; ctok =
+    s.ctok; wsrc = s.wsrc; nclr = s.nclr; lastv = s.lastv; tainted =
+    s.tainted; susp = s.susp; ncall = s.ncall }
 
 (** val set_holder : hold -> st -> st **)
 
@@ -842,10 +859,11 @@ let set_holder v s =
   { pstate = s.pstate; slot = s.slot; wk = s.wk; tmo = s.tmo; hnd = s.hnd;
     ccheck = s.ccheck; cbit = s.cbit; cdis = s.cdis; cco = s.cco; para =
     s.para; running = s.running; rq = s.rq; up = s.up; ud = s.ud; kp = s.kp;
-    kdur = s.kdur; kdl = s.kdl; un = s.un; cn = s.cn; tm = s.tm; ntm = s.ntm;
-    now = s.now; nested = s.nested; dropping = s.dropping; oldk = s.oldk;
-    holder = v; tcall = s.tcall; tok0 = s.tok0; ctok = s.ctok; wsrc = s.wsrc;
-    nclr = s.nclr; lastv = s.lastv; tainted = s.tainted; susp = s.susp }
+    kdur = s.kdur; kdl = s.kdl; un = s.un; cn = s.cn; tm = s.tm; tdl = s.tdl;
+    ntm = s.ntm; now = s.now; nested = s.nested; dropping = s.dropping;
+    oldk = s.oldk; holder = v; tcall = s.tcall; tok0 = s.tok0; ctok = s.ctok;
+    wsrc = s.wsrc; nclr = s.nclr; lastv = s.lastv; tainted = s.tainted;
+    susp = s.susp; ncall = s.ncall }
 
 (** val set_tcall : z -> st -> st **)
 
@@ -853,11 +871,11 @@ let set_tcall v s =
   { pstate = s.pstate; slot = s.slot; wk = s.wk; tmo = s.tmo; hnd = s.hnd;
     ccheck = s.ccheck; cbit = s.cbit; cdis = s.cdis; cco = s.cco; para =
     s.para; running = s.running; rq = s.rq; up = s.up; ud = s.ud; kp = s.kp;
-    kdur = s.kdur; kdl = s.kdl; un = s.un; cn = s.cn; tm = s.tm; ntm = s.ntm;
-    now = s.now; nested = s.nested; dropping = s.dropping; oldk = s.oldk;
-    holder = s.holder; tcall = v; tok0 = s.tok0; ctok = s.ctok; wsrc =
-    s.wsrc; nclr = s.nclr; lastv = s.lastv; tainted = s.tainted; susp =
-    s.susp }
+    kdur = s.kdur; kdl = s.kdl; un = s.un; cn = s.cn; tm = s.tm; tdl = s.tdl;
+    ntm = s.ntm; now = s.now; nested = s.nested; dropping = s.dropping;
+    oldk = s.oldk; holder = s.holder; tcall = v; tok0 = s.tok0; ctok =
+    s.ctok; wsrc = s.wsrc; nclr = s.nclr; lastv = s.lastv; tainted =
+    s.tainted; susp = s.susp; ncall = s.ncall }
 
 (** val set_tok0 : bool -> st -> st **)
 
@@ -865,11 +883,11 @@ let set_tok0 v s =
   { pstate = s.pstate; slot = s.slot; wk = s.wk; tmo = s.tmo; hnd = s.hnd;
     ccheck = s.ccheck; cbit = s.cbit; cdis = s.cdis; cco = s.cco; para =
     s.para; running = s.running; rq = s.rq; up = s.up; ud = s.ud; kp = s.kp;
-    kdur = s.kdur; kdl = s.kdl; un = s.un; cn = s.cn; tm = s.tm; ntm = s.ntm;
-    now = s.now; nested = s.nested; dropping = s.dropping; oldk = s.oldk;
-    holder = s.holder; tcall = s.tcall; tok0 = v; ctok = s.ctok; wsrc =
-    s.wsrc; nclr = s.nclr; lastv = s.lastv; tainted = s.tainted; susp =
-    s.susp }
+    kdur = s.kdur; kdl = s.kdl; un = s.un; cn = s.cn; tm = s.tm; tdl = s.tdl;
+    ntm = s.ntm; now = s.now; nested = s.nested; dropping = s.dropping;
+    oldk = s.oldk; holder = s.holder; tcall = s.tcall; tok0 = v; ctok =
+    s.ctok; wsrc = s.wsrc; nclr = s.nclr; lastv = s.lastv; tainted =
+    s.tainted; susp = s.susp; ncall = s.ncall }
 
 (** val set_ctok : bool -> st -> st **)
 
@@ -877,11 +895,11 @@ let set_ctok v s =
   { pstate = s.pstate; slot = s.slot; wk = s.wk; tmo = s.tmo; hnd = s.hnd;
     ccheck = s.ccheck; cbit = s.cbit; cdis = s.cdis; cco = s.cco; para =
     s.para; running = s.running; rq = s.rq; up = s.up; ud = s.ud; kp = s.kp;
-    kdur = s.kdur; kdl = s.kdl; un = s.un; cn = s.cn; tm = s.tm; ntm = s.ntm;
-    now = s.now; nested = s.nested; dropping = s.dropping; oldk = s.oldk;
-    holder = s.holder; tcall = s.tcall; tok0 = s.tok0; ctok = v; wsrc =
-    s.wsrc; nclr = s.nclr; lastv = s.lastv; tainted = s.tainted; susp =
-    s.susp }
+    kdur = s.kdur; kdl = s.kdl; un = s.un; cn = s.cn; tm = s.tm; tdl = s.tdl;
+    ntm = s.ntm; now = s.now; nested = s.nested; dropping = s.dropping;
+    oldk = s.oldk; holder = s.holder; tcall = s.tcall; tok0 = s.tok0; ctok =
+    v; wsrc = s.wsrc; nclr = s.nclr; lastv = s.lastv; tainted = s.tainted;
+    susp = s.susp; ncall = s.ncall }
 
 (** val set_wsrc : wake -> st -> st **)
 
@@ -889,10 +907,11 @@ let set_wsrc v s =
   { pstate = s.pstate; slot = s.slot; wk = s.wk; tmo = s.tmo; hnd = s.hnd;
     ccheck = s.ccheck; cbit = s.cbit; cdis = s.cdis; cco = s.cco; para =
     s.para; running = s.running; rq = s.rq; up = s.up; ud = s.ud; kp = s.kp;
-    kdur = s.kdur; kdl = s.kdl; un = s.un; cn = s.cn; tm = s.tm; ntm = s.ntm;
-    now = s.now; nested = s.nested; dropping = s.dropping; oldk = s.oldk;
-    holder = s.holder; tcall = s.tcall; tok0 = s.tok0; ctok = s.ctok; wsrc =
-    v; nclr = s.nclr; lastv = s.lastv; tainted = s.tainted; susp = s.susp }
+    kdur = s.kdur; kdl = s.kdl; un = s.un; cn = s.cn; tm = s.tm; tdl = s.tdl;
+    ntm = s.ntm; now = s.now; nested = s.nested; dropping = s.dropping;
+    oldk = s.oldk; holder = s.holder; tcall = s.tcall; tok0 = s.tok0; ctok =
+    s.ctok; wsrc = v; nclr = s.nclr; lastv = s.lastv; tainted = s.tainted;
+    susp = s.susp; ncall = s.ncall }
 
 (** val set_nclr : nat -> st -> st **)
 
@@ -900,10 +919,11 @@ let set_nclr v s =
   { pstate = s.pstate; slot = s.slot; wk = s.wk; tmo = s.tmo; hnd = s.hnd;
     ccheck = s.ccheck; cbit = s.cbit; cdis = s.cdis; cco = s.cco; para =
     s.para; running = s.running; rq = s.rq; up = s.up; ud = s.ud; kp = s.kp;
-    kdur = s.kdur; kdl = s.kdl; un = s.un; cn = s.cn; tm = s.tm; ntm = s.ntm;
-    now = s.now; nested = s.nested; dropping = s.dropping; oldk = s.oldk;
-    holder = s.holder; tcall = s.tcall; tok0 = s.tok0; ctok = s.ctok; wsrc =
-    s.wsrc; nclr = v; lastv = s.lastv; tainted = s.tainted; susp = s.susp }
+    kdur = s.kdur; kdl = s.kdl; un = s.un; cn = s.cn; tm = s.tm; tdl = s.tdl;
+    ntm = s.ntm; now = s.now; nested = s.nested; dropping = s.dropping;
+    oldk = s.oldk; holder = s.holder; tcall = s.tcall; tok0 = s.tok0; ctok =
+    s.ctok; wsrc = s.wsrc; nclr = v; lastv = s.lastv; tainted = s.tainted;
+    susp = s.susp; ncall = s.ncall }
 
 (** val set_lastv : verdict option -> st -> st **)
 
@@ -911,10 +931,11 @@ let set_lastv v s =
   { pstate = s.pstate; slot = s.slot; wk = s.wk; tmo = s.tmo; hnd = s.hnd;
     ccheck = s.ccheck; cbit = s.cbit; cdis = s.cdis; cco = s.cco; para =
     s.para; running = s.running; rq = s.rq; up = s.up; ud = s.ud; kp = s.kp;
-    kdur = s.kdur; kdl = s.kdl; un = s.un; cn = s.cn; tm = s.tm; ntm = s.ntm;
-    now = s.now; nested = s.nested; dropping = s.dropping; oldk = s.oldk;
-    holder = s.holder; tcall = s.tcall; tok0 = s.tok0; ctok = s.ctok; wsrc =
-    s.wsrc; nclr = s.nclr; lastv = v; tainted = s.tainted; susp = s.susp }
+    kdur = s.kdur; kdl = s.kdl; un = s.un; cn = s.cn; tm = s.tm; tdl = s.tdl;
+    ntm = s.ntm; now = s.now; nested = s.nested; dropping = s.dropping;
+    oldk = s.oldk; holder = s.holder; tcall = s.tcall; tok0 = s.tok0; ctok =
+    s.ctok; wsrc = s.wsrc; nclr = s.nclr; lastv = v; tainted = s.tainted;
+    susp = s.susp; ncall = s.ncall }
 
 (** val set_tainted : bool -> st -> st **)
 
@@ -922,10 +943,11 @@ let set_tainted v s =
   { pstate = s.pstate; slot = s.slot; wk = s.wk; tmo = s.tmo; hnd = s.hnd;
     ccheck = s.ccheck; cbit = s.cbit; cdis = s.cdis; cco = s.cco; para =
     s.para; running = s.running; rq = s.rq; up = s.up; ud = s.ud; kp = s.kp;
-    kdur = s.kdur; kdl = s.kdl; un = s.un; cn = s.cn; tm = s.tm; ntm = s.ntm;
-    now = s.now; nested = s.nested; dropping = s.dropping; oldk = s.oldk;
-    holder = s.holder; tcall = s.tcall; tok0 = s.tok0; ctok = s.ctok; wsrc =
-    s.wsrc; nclr = s.nclr; lastv = s.lastv; tainted = v; susp = s.susp }
+    kdur = s.kdur; kdl = s.kdl; un = s.un; cn = s.cn; tm = s.tm; tdl = s.tdl;
+    ntm = s.ntm; now = s.now; nested = s.nested; dropping = s.dropping;
+    oldk = s.oldk; holder = s.holder; tcall = s.tcall; tok0 = s.tok0; ctok =
+    s.ctok; wsrc = s.wsrc; nclr = s.nclr; lastv = s.lastv; tainted = v;
+    susp = s.susp; ncall = s.ncall }
 
 (** val set_susp : bool -> st -> st **)
 
@@ -933,10 +955,23 @@ let set_susp v s =
   { pstate = s.pstate; slot = s.slot; wk = s.wk; tmo = s.tmo; hnd = s.hnd;
     ccheck = s.ccheck; cbit = s.cbit; cdis = s.cdis; cco = s.cco; para =
     s.para; running = s.running; rq = s.rq; up = s.up; ud = s.ud; kp = s.kp;
-    kdur = s.kdur; kdl = s.kdl; un = s.un; cn = s.cn; tm = s.tm; ntm = s.ntm;
-    now = s.now; nested = s.nested; dropping = s.dropping; oldk = s.oldk;
-    holder = s.holder; tcall = s.tcall; tok0 = s.tok0; ctok = s.ctok; wsrc =
-    s.wsrc; nclr = s.nclr; lastv = s.lastv; tainted = s.tainted; susp = v }
+    kdur = s.kdur; kdl = s.kdl; un = s.un; cn = s.cn; tm = s.tm; tdl = s.tdl;
+    ntm = s.ntm; now = s.now; nested = s.nested; dropping = s.dropping;
+    oldk = s.oldk; holder = s.holder; tcall = s.tcall; tok0 = s.tok0; ctok =
+    s.ctok; wsrc = s.wsrc; nclr = s.nclr; lastv = s.lastv; tainted =
+    s.tainted; susp = v; ncall = s.ncall }
+
+(** val set_ncall : nat -> st -> st **)
+
+let set_ncall v s =
+  { pstate = s.pstate; slot = s.slot; wk = s.wk; tmo = s.tmo; hnd = s.hnd;
+    ccheck = s.ccheck; cbit = s.cbit; cdis = s.cdis; cco = s.cco; para =
+    s.para; running = s.running; rq = s.rq; up = s.up; ud = s.ud; kp = s.kp;
+    kdur = s.kdur; kdl = s.kdl; un = s.un; cn = s.cn; tm = s.tm; tdl = s.tdl;
+    ntm = s.ntm; now = s.now; nested = s.nested; dropping = s.dropping;
+    oldk = s.oldk; holder = s.holder; tcall = s.tcall; tok0 = s.tok0; ctok =
+    s.ctok; wsrc = s.wsrc; nclr = s.nclr; lastv = s.lastv; tainted =
+    s.tainted; susp = s.susp; ncall = v }
 
 (** val upd : (nat -> 'a1) -> nat -> 'a1 -> nat -> 'a1 **)
 
@@ -950,9 +985,9 @@ let init =
     true; cbit = false; cdis = false; cco = CNone; para = None; running =
     true; rq = O; up = UIdle; ud = None; kp = KIdle; kdur = None; kdl = None;
     un = (fun _ -> NIdle); cn = (fun _ -> CIdle); tm = (fun _ -> TmNone);
-    ntm = O; now = Z0; nested = false; dropping = false; oldk = O; holder =
-    HNone; tcall = Z0; tok0 = false; ctok = false; wsrc = WNone; nclr = O;
-    lastv = None; tainted = false; susp = false }
+    tdl = (fun _ -> Z0); ntm = O; now = Z0; nested = false; dropping = false;
+    oldk = O; holder = HNone; tcall = Z0; tok0 = false; ctok = false; wsrc =
+    WNone; nclr = O; lastv = None; tainted = false; susp = false; ncall = O }
 
 type action =
 | APark of z option
@@ -1098,7 +1133,7 @@ let ustep s =
                (set_up UPara
                  (set_tm
                    (match s.tm i with
-                    | TmArmed dl -> upd s.tm i (TmCanc dl)
+                    | TmArmed -> upd s.tm i TmCanc
                     | _ -> s.tm) (set_hnd None s)))
            | None -> Some (set_up UPara s))
         | UPara ->
@@ -1128,15 +1163,11 @@ let kstep fixF8 fixF12 s =
        Some
          (set_kp KHandle
            (set_ntm (S s.ntm)
-             (set_tm (upd s.tm s.ntm (TmArmed (Z.add s.now d))) s)))
+             (set_hnd (Some s.ntm)
+               (set_tdl (upd s.tdl s.ntm (Z.add s.now d))
+                 (set_tm (upd s.tm s.ntm TmArmed) s)))))
      | None -> None)
-  | KHandle ->
-    Some
-      (set_kp KGon
-        (set_hnd
-          (match s.kdur with
-           | Some _ -> Some (pred s.ntm)
-           | None -> None) s))
+  | KHandle -> Some (set_kp KGon s)
   | KGon -> Some (set_kp KStore (set_wk true s))
   | KStore -> Some (set_kp (if fixF8 then KChk else KSload) (set_slot true s))
   | KChk ->
@@ -1197,10 +1228,11 @@ let step fixF8 fixF12 s = function
                         | None -> true)
      then Some
             (set_up UCp1Load
-              (set_susp false
-                (set_wsrc WNone
-                  (set_ctok false
-                    (set_tok0 s.pstate (set_tcall s.now (set_ud d s)))))))
+              (set_ncall (S s.ncall)
+                (set_susp false
+                  (set_wsrc WNone
+                    (set_ctok false
+                      (set_tok0 s.pstate (set_tcall s.now (set_ud d s))))))))
      else None
    | _ -> None)
 | AU -> ustep s
@@ -1227,35 +1259,36 @@ let step fixF8 fixF12 s = function
    | UIdle ->
      if s.running
      then Some
-            (set_wsrc WNone
-              (set_ctok false
-                (set_tainted false
-                  (set_nclr O
-                    (set_nested false
-                      (set_ntm O
-                        (set_tm (fun _ -> TmNone)
-                          (set_cn (fun i ->
-                            match s.cn i with
-                            | CTake -> CTakeS
-                            | x -> x)
-                            (set_un (fun _ -> NIdle)
-                              (set_kdl None
-                                (set_kdur None
-                                  (set_kp KIdle
-                                    (set_oldk
-                                      (if setco_ahead s.kp
-                                       then S s.oldk
-                                       else s.oldk)
-                                      (set_cco
-                                        (match s.cco with
-                                         | CNone -> CNone
-                                         | _ -> CStale)
-                                        (set_ccheck (negb ign)
-                                          (set_hnd None
-                                            (set_tmo Z0
-                                              (set_wk false
-                                                (set_slot false
-                                                  (set_pstate false s))))))))))))))))))))
+            (set_ncall O
+              (set_wsrc WNone
+                (set_ctok false
+                  (set_tainted false
+                    (set_nclr O
+                      (set_nested false
+                        (set_ntm O
+                          (set_tm (fun _ -> TmNone)
+                            (set_cn (fun i ->
+                              match s.cn i with
+                              | CTake -> CTakeS
+                              | x -> x)
+                              (set_un (fun _ -> NIdle)
+                                (set_kdl None
+                                  (set_kdur None
+                                    (set_kp KIdle
+                                      (set_oldk
+                                        (if setco_ahead s.kp
+                                         then S s.oldk
+                                         else s.oldk)
+                                        (set_cco
+                                          (match s.cco with
+                                           | CNone -> CNone
+                                           | _ -> CStale)
+                                          (set_ccheck (negb ign)
+                                            (set_hnd None
+                                              (set_tmo Z0
+                                                (set_wk false
+                                                  (set_slot false
+                                                    (set_pstate false s)))))))))))))))))))))
      else None
    | _ -> None)
 | AK -> kstep fixF8 fixF12 s
@@ -1321,32 +1354,32 @@ let step fixF8 fixF12 s = function
    | _ -> None)
 | ATFire i ->
   (match s.tm i with
-   | TmArmed dl ->
-     if Z.leb dl s.now
-     then Some (set_tm (upd s.tm i (TmFired dl)) s)
+   | TmArmed ->
+     if Z.leb (s.tdl i) s.now
+     then Some (set_tm (upd s.tm i TmFired) s)
      else None
-   | TmCanc dl ->
-     if Z.leb dl s.now
-     then Some (set_tm (upd s.tm i (TmFired dl)) s)
+   | TmCanc ->
+     if Z.leb (s.tdl i) s.now
+     then Some (set_tm (upd s.tm i TmFired) s)
      else None
    | _ -> None)
 | ATDrop i ->
   (match s.tm i with
-   | TmCanc _ -> Some (set_tm (upd s.tm i TmDone) s)
+   | TmCanc -> Some (set_tm (upd s.tm i TmDone) s)
    | _ -> None)
 | ATTake i ->
   (match s.tm i with
-   | TmFired dl ->
+   | TmFired ->
      if s.slot
      then Some
             (set_wsrc (WTm (negb (optnat_eqb s.hnd (Some i))))
               (set_holder (HTm i)
-                (set_tm (upd s.tm i (TmHold dl)) (set_slot false s))))
+                (set_tm (upd s.tm i TmHold) (set_slot false s))))
      else Some (set_tm (upd s.tm i TmDone) s)
    | _ -> None)
 | ATRun i ->
   (match s.tm i with
-   | TmHold _ ->
+   | TmHold ->
      Some
        (set_holder HNone
          (set_tm (upd s.tm i TmDone)
@@ -1720,23 +1753,23 @@ let hnd_some = function
 | Some _ -> true
 | None -> false
 
-(** val min_entry : (nat -> tmst) -> nat -> (nat * z) option **)
+(** val min_entry : (nat -> tmst) -> (nat -> z) -> nat -> (nat * z) option **)
 
-let rec min_entry t = function
+let rec min_entry t d = function
 | O -> None
 | S k' ->
-  let r = min_entry t k' in
+  let r = min_entry t d k' in
   (match t k' with
-   | TmArmed dl ->
+   | TmArmed ->
      (match r with
       | Some p0 ->
-        let (_, d0) = p0 in if Z.leb d0 dl then r else Some (k', dl)
-      | None -> Some (k', dl))
-   | TmCanc dl ->
+        let (_, d0) = p0 in if Z.leb d0 (d k') then r else Some (k', (d k'))
+      | None -> Some (k', (d k')))
+   | TmCanc ->
      (match r with
       | Some p0 ->
-        let (_, d0) = p0 in if Z.leb d0 dl then r else Some (k', dl)
-      | None -> Some (k', dl))
+        let (_, d0) = p0 in if Z.leb d0 (d k') then r else Some (k', (d k'))
+      | None -> Some (k', (d k')))
    | _ -> r)
 
 (** val verdict_code : verdict option -> z **)
@@ -2170,7 +2203,8 @@ let plan = function
                                        if (&&) (Z.eqb obj x0.oslot)
                                             (negb (Z.eqb x0.oslot Z0))
                                        then if zb val0
-                                            then (match min_entry s0.tm s0.ntm with
+                                            then (match min_entry s0.tm
+                                                          s0.tdl s0.ntm with
                                                   | Some p6 ->
                                                     let (i, dl) = p6 in
                                                     seq (tick_to dl)
@@ -2286,10 +2320,7 @@ let plan = function
                                              (withs (fun s _ ->
                                                match s.kp with
                                                | KHandle ->
-                                                 seq
-                                                   (guard
-                                                     (eqb (zb val0)
-                                                       (hnd_some s.hnd)))
+                                                 seq (guard (negb (zb val0)))
                                                    (act AK)
                                                | _ -> fail)))
                                     else if isu a x0
